@@ -79,18 +79,24 @@ var c04Pool = []kval{
 	{"k_nhtm", func() interface{} { var p *htmler; return p }},               // typed nil pointer implementing HTMLer by value
 	{"k_nids", func() interface{} { var p *IDList; return p }},               // typed nil pointer to a named slice type with a value-receiver method
 	{"k_ids", func() interface{} { return &IDList{1, 2} }},
-	{"k_mb", func() interface{} { return "日本語日本語" }},                                                // multi-byte text
-	{"k_cyr", func() interface{} { return "абвгдежзийклмнопрстуфхцчшщъыьэюя" }},                     // >50 bytes, <50 runes
-	{"k_embid", func() interface{} { return WithNilEmbeddedID{} }},                                  // embeds a nil pointer whose type has ID / Slug fields (pathFor)
-	{"k_fnhc", func() interface{} { return func(h NamedHelperContext) string { return "hc" } }},     // parameter convertible to, but not assignable from, plush.HelperContext
-	{"k_fnwide", func() interface{} { return func(h WideHelperContext) string { return "wide" } }},  // an interface that plush.HelperContext does not satisfy although it embeds the helper-context methods
-	{"k_fnphc", func() interface{} { return func(h *plush.HelperContext) string { return "phc" } }}, // pointer to the helper context: implements the interface, neither assignable nor convertible
-	{"k_pit", func() interface{} { return &PanicIter{} }},                                           // an Iterator whose Next panics on its second call
-	{"k_stack", func() interface{} { return &IntStack{1, 2, 3, 4, 5} }},                             // a pointer to a slice with methods that change its length
-	{"k_void", func() interface{} { return func(s string) {} }},                                     // a Go function without results
-	{"k_voider", func() interface{} { return Voider{} }},                                            // a value with a method without results
-	{"k_embs", func() interface{} { return WithNilStringer{} }},                                     // String() promoted through a nil embedded pointer
-	{"k_embsi", func() interface{} { return &WithNilStringerIface{} }},                              // String() of a nil embedded interface
+	{"k_mb", func() interface{} { return "日本語日本語" }},                                                   // multi-byte text
+	{"k_cyr", func() interface{} { return "абвгдежзийклмнопрстуфхцчшщъыьэюя" }},                        // >50 bytes, <50 runes
+	{"k_embid", func() interface{} { return WithNilEmbeddedID{} }},                                     // embeds a nil pointer whose type has ID / Slug fields (pathFor)
+	{"k_fnhc", func() interface{} { return func(h NamedHelperContext) string { return "hc" } }},        // parameter convertible to, but not assignable from, plush.HelperContext
+	{"k_fnwide", func() interface{} { return func(h WideHelperContext) string { return "wide" } }},     // an interface that plush.HelperContext does not satisfy although it embeds the helper-context methods
+	{"k_fnphc", func() interface{} { return func(h *plush.HelperContext) string { return "phc" } }},    // pointer to the helper context: implements the interface, neither assignable nor convertible
+	{"k_pit", func() interface{} { return &PanicIter{} }},                                              // an Iterator whose Next panics on its second call
+	{"k_stack", func() interface{} { return &IntStack{1, 2, 3, 4, 5} }},                                // a pointer to a slice with methods that change its length
+	{"k_void", func() interface{} { return func(s string) {} }},                                        // a Go function without results
+	{"k_fnverr", func() interface{} { return func() (string, c04ValErr) { return "v", c04ValErr{} } }}, // last result: a struct type that implements error by value
+	{"k_fnerrno", func() interface{} { return func() c04Errno { return 0 } }},                          // only result: a named int that implements error
+	{"k_fnerrno1", func() interface{} { return func(s string) (string, c04Errno) { return s, 3 } }},    // ... non-zero, after a value
+	{"k_fnerrs", func() interface{} { return func() (string, c04Errs) { return "v", nil } }},           // a nil slice type that implements error
+	{"k_fnerrf", func() interface{} { return func() (string, c04ErrFunc) { return "v", nil } }},        // a nil func type that implements error
+	{"k_valerrer", func() interface{} { return c04ValErrer{} }},                                        // methods with such results
+	{"k_voider", func() interface{} { return Voider{} }},                                               // a value with a method without results
+	{"k_embs", func() interface{} { return WithNilStringer{} }},                                        // String() promoted through a nil embedded pointer
+	{"k_embsi", func() interface{} { return &WithNilStringerIface{} }},                                 // String() of a nil embedded interface
 	{"k_fnhc2", func() interface{} {
 		return func(s string, m map[string]interface{}, h NamedHelperContext) string { return s }
 	}},
@@ -317,6 +323,8 @@ func c04Run(t *engine.T, shard string) {
 			`<%= k_void("x").Name %>`, `<%= k_void("x")[0] %>`, `<%= k_void("x").Names[0] %>`, `<%= k_void("x").Hello() %>`, `<%= k_void("x")("y") %>`, `<%= k_void("x") %>`, `<% let q = k_void("x").Name %>`,
 			`<%= k_voider.Touch().Name %>`, `<%= k_voider.Touch()[0] %>`, `<%= k_voider.Touch() %>`, `<%= k_voider.Touch().Touch() %>`, `<%= for (v) in k_void("x").Items { %>x<% } %>`, `<%= if (k_void("x").Ok) { %>y<% } %>`,
 			`<%= k_si[0].Name %>|<%= k_void("x").Name %>`, `<%= uf(k_void("x")).Name %>`,
+			`<%= k_fnverr() %>`, `<%= k_fnerrno() %>`, `<%= k_fnerrno1("x") %>`, `<%= k_fnerrs() %>`, `<%= k_fnerrf() %>`, `<%= k_valerrer.Check() %>`, `<%= k_valerrer.Code(2) %>`, `<%= k_fnverr().Name %>`, `<% let q = k_fnerrno() %>`,
+			`<%= if (k_fnverr()) { %>y<% } %>`, `<%= for (v) in k_valerrer.Check() { %>x<% } %>`, `<%= k_valerrer.Code(0) + 1 %>`,
 		} {
 			c04Case(t, "void", P+src)
 		}
@@ -454,3 +462,24 @@ func c04Run(t *engine.T, shard string) {
 		}
 	}
 }
+
+type c04ValErr struct{ Msg string }
+
+func (e c04ValErr) Error() string { return "valerr " + e.Msg }
+
+type c04Errno int
+
+func (e c04Errno) Error() string { return fmt.Sprintf("errno %d", int(e)) }
+
+type c04Errs []error
+
+func (e c04Errs) Error() string { return fmt.Sprintf("%d errors", len(e)) }
+
+type c04ErrFunc func() string
+
+func (e c04ErrFunc) Error() string { return "errfunc" }
+
+type c04ValErrer struct{}
+
+func (c04ValErrer) Check() (string, c04ValErr) { return "ok", c04ValErr{} }
+func (c04ValErrer) Code(n int) c04Errno        { return c04Errno(n) }
